@@ -246,7 +246,7 @@ def campaign_chunks(tier, seed, nspecs=None, opts=None, tag="t2", with_clone=Tru
                 if not os.path.exists(cfile):
                     res = _campaign(rng, tier, n, nvals, opts, "%s%d" % (tag, ci), with_clone, with_catalog)
                     old = sorted((os.path.getmtime(os.path.join(cdir, f)), f) for f in os.listdir(cdir))
-                    for _, f in old[:-14]:
+                    for _, f in old[:-7]:
                         os.remove(os.path.join(cdir, f))
                     json.dump(res, open(cfile + ".tmp", "w"))
                     os.replace(cfile + ".tmp", cfile)
